@@ -120,6 +120,8 @@ type IntervalEnv struct {
 	Fn *ssa.Function
 	// CallRange lets rules give result intervals for calls (e.g. reader widths); return ok=false for unknown.
 	CallRange func(c *ssa.Call, resultIndex int) (Interval, bool)
+	// AtomConst gives constant values for polynomial atoms (e.g. len of a constant-length table) when refining with facts.
+	AtomConst map[string]int64
 	// FieldRange gives an invariant interval for loads of a struct field (type string without module prefix, field name).
 	FieldRange func(structType string, field string) (Interval, bool)
 	depth     int
@@ -557,6 +559,9 @@ func (e *IntervalEnv) At(v ssa.Value, b *ssa.BasicBlock) Interval {
 	r := e.Of(v)
 	pv := e.Poly.Of(v)
 	for _, f := range e.Poly.Facts(b) {
+		if len(e.AtomConst) > 0 {
+			f.P = substAtoms(f.P, e.AtomConst)
+		}
 		r = r.Meet(boundFromFact(f, pv))
 	}
 	// facts on a value v was converted from (same polynomial through int conversions is already handled by Poly)
@@ -657,4 +662,19 @@ func resultType(f *ssa.Function, idx int) types.Type {
 		return res.At(idx).Type()
 	}
 	return types.Typ[types.Invalid]
+}
+
+// substAtoms replaces atoms with known constants (only in linear monomials).
+func substAtoms(p *Poly, m map[string]int64) *Poly {
+	q := NewPoly()
+	for k, c := range p.T {
+		if v, ok := m[k]; ok && c.IsInt64() {
+			q = q.Add(PConst(c.Int64() * v))
+			continue
+		}
+		t := NewPoly()
+		t.T[k] = c
+		q = q.Add(t)
+	}
+	return q
 }
